@@ -41,7 +41,7 @@ fn single(body: Vec<Stmt>, extra: Vec<FuncDef>) -> Program {
 
 /// programs that end in a specific way
 fn template(c: &mut Choices) -> (String, Program) {
-    match c.draw(10) {
+    match c.draw(13) {
         0 => {
             // no arguments and no locals: the call stack fills up before the value stack
             let f = FuncDef { id: 1, name: "f".into(), module: vec![], params: vec![], body: vec![Stmt::Return(Expr::Call("f".into(), 1, vec![]))] };
@@ -102,6 +102,36 @@ fn template(c: &mut Choices) -> (String, Program) {
                 p.globals.push(format!("u{}", i));
             }
             ("reads_unassigned_global".into(), p)
+        }
+        10 | 11 => {
+            // reads a LOCAL that this run never assigns (its only assignment is in a branch not
+            // taken) after a call with 1-4 arguments has used and released the slots above the
+            // locals: what the read gives must not depend on what an earlier run left there
+            let nargs = 1 + c.draw(4);
+            let params: Vec<String> = (0..nargs).map(|i| format!("p{}", i)).collect();
+            let f = FuncDef { id: 1, name: "f".into(), module: vec![], params: params.clone(), body: vec![Stmt::SetVar("tmp".into(), int(77)), Stmt::Return(var(&params[0]))] };
+            let mut body = vec![log_stmt(int(10))];
+            let locals = c.draw(3);
+            for i in 0..locals {
+                body.push(Stmt::SetVar(format!("l{}", i), int(i as i64)));
+            }
+            let call = Stmt::SetGlobal("r".into(), Expr::Call("f".into(), 1, (0..nargs).map(|i| int(40 + i as i64)).collect()));
+            // the reads come before or after the call: before it, only an EARLIER run can have
+            // left something in those slots
+            let call_first = c.bool();
+            if call_first {
+                body.push(call.clone());
+            }
+            let dead: Vec<Stmt> = (0..3).map(|i| Stmt::SetVar(format!("maybe_l{}", i), int(7))).collect();
+            body.push(Stmt::IfTrue(int(0), Box::new(Stmt::Composite(dead))));
+            for i in 0..3 {
+                body.push(Stmt::SetGlobal("r".into(), var(&format!("maybe_l{}", i))));
+                body.push(log_stmt(var("r")));
+            }
+            if !call_first {
+                body.push(call);
+            }
+            ("reads_unassigned_local".into(), single(body, vec![f]))
         }
         _ => {
             // leaves an open upvalue and a closure in a global
